@@ -22,7 +22,7 @@
    source on the compiled C (every received subset of small codes, sampled subsets up to n = 255). *)
 From Coq Require Import Arith List Bool.
 From Coq Require Import NArith.
-From OFV Require Import ListAux RSApi RSApiProofs GF2Poly RSCanon GaussJordan RSCore RSSession.
+From OFV Require Import ListAux RSApi RSApiProofs GF2Poly RSCanon GaussJordan RSCore RSSession RSEnc RSEndToEnd.
 Import ListNotations.
 
 Theorem rs_complete_iff_k_distinct :
@@ -157,7 +157,37 @@ Theorem rs16_fewer_than_k_symbols_fail :
   snd r = FAILURE /\ rs_source_tab (fst r) = None /\ rs_is_complete (run N core cb mk k n h) = false.
 Proof. exact rs16_session_too_few. Qed.
 
+(* the same at the level of real symbols (vectors of L bytes; for GF(2^4) two field elements per byte), with the
+   encoder model of C06 producing the block: encode8 k n L src e is source e for e < k and the repair symbol
+   RSEnc.rs8_repair otherwise (the function the extracted model runs against the C encoders) *)
+Theorem rs8_block_recovered_from_any_k_encoding_symbols :
+  forall (cb : bool) (k n L : nat) (src : list sym),
+  1 <= k <= n -> n <= 256 -> length src = k -> wf_block L src ->
+  forall h : list (nat * sym), enc8_hist k n L src h -> k <= ndistinct n (map fst h) ->
+  let r := rs_finish (core8_sym L n) cb (mkidB sym) (run sym (core8_sym L n) cb (mkidB sym) k n h) in
+  snd r = OK /\ rs_source_tab (fst r) = Some (map Some src).
+Proof. exact rs8_sym_session_recovers_the_sources. Qed.
+
+Theorem rs8_block_fewer_than_k_encoding_symbols_fail :
+  forall (cb : bool) (k n L : nat) (src : list sym),
+  1 <= k <= n -> n <= 256 ->
+  forall h : list (nat * sym), enc8_hist k n L src h -> ndistinct n (map fst h) < k ->
+  let r := rs_finish (core8_sym L n) cb (mkidB sym) (run sym (core8_sym L n) cb (mkidB sym) k n h) in
+  snd r = FAILURE /\ rs_source_tab (fst r) = None /\
+  rs_is_complete (run sym (core8_sym L n) cb (mkidB sym) k n h) = false.
+Proof. exact rs8_sym_session_too_few. Qed.
+
+Theorem rs4_block_recovered_from_any_k_encoding_symbols :
+  forall (cb : bool) (k n L : nat) (src : list sym),
+  1 <= k <= n -> n <= 16 -> length src = k -> wf_block L src ->
+  forall h : list (nat * sym), enc4_hist k n L src h -> k <= ndistinct n (map fst h) ->
+  let r := rs_finish (core4_sym L n) cb (mkidB sym) (run sym (core4_sym L n) cb (mkidB sym) k n h) in
+  snd r = OK /\ rs_source_tab (fst r) = Some (map Some src).
+Proof. exact rs4_sym_session_recovers_the_sources. Qed.
+
 Print Assumptions rs_complete_iff_k_distinct.
+Print Assumptions rs8_block_recovered_from_any_k_encoding_symbols.
+Print Assumptions rs4_block_recovered_from_any_k_encoding_symbols.
 Print Assumptions rs256_any_k_symbols_recover_the_block.
 Print Assumptions rs256_fewer_than_k_symbols_fail.
 Print Assumptions rs16_any_k_symbols_recover_the_block.
